@@ -414,7 +414,7 @@ func StripZeros(defs []meta.Definition, want, got *Tree) {
 			if _, set := want.Leaves[id]; set {
 				continue
 			}
-			if g, ok := got.Leaves[id]; ok && (g.Canon == "0" || g.Canon == "false" || g.Canon == `""`) {
+			if g, ok := got.Leaves[id]; ok && zeroCanon(g.Canon) {
 				delete(got.Leaves, id)
 			}
 		}
